@@ -9,6 +9,9 @@
 #  define __TBB_NO_IMPLICIT_LINKAGE 1
 #  define __TBBMALLOC_NO_IMPLICIT_LINKAGE 1
 #  include <tbb/parallel_for.h>
+#elif defined(RKCOMMON_TASKING_OMP)
+#  include <omp.h>
+#  include "../tasking_system_init.h"
 #elif defined(RKCOMMON_TASKING_INTERNAL)
 #  include "TaskSys.h"
 #endif
@@ -23,7 +26,13 @@ namespace rkcommon {
 #ifdef RKCOMMON_TASKING_TBB
         tbb::parallel_for(INDEX_T(0), nTasks, std::forward<TASK_T>(fcn));
 #elif defined(RKCOMMON_TASKING_OMP)
-#       pragma omp parallel for schedule(dynamic)
+        // NOTE: the thread count set in initTaskingSystem() is a per-thread
+        //       OpenMP setting of the thread that made that call, so pass the
+        //       configured count on to the region explicitly
+        const int configured = numTaskingThreads();
+        const int numThreads =
+            configured > 0 ? configured : omp_get_max_threads();
+#       pragma omp parallel for schedule(dynamic) num_threads(numThreads)
         for (INDEX_T taskIndex = 0; taskIndex < nTasks; ++taskIndex) {
           fcn(taskIndex);
         }
